@@ -156,8 +156,12 @@ def laguerre_der(n, alpha, x):
     """
     # see wiki
     # d^k/dx^k L_n^alpha = (-1)^k L_(n-k)^(alpha+k)
+    if n == 0:
+        return np.zeros_like(x)
+
     k = 1
-    return laguerre(n-k, alpha+k, x)
+    # d/dx L_n^a = - L_{n-1}^{a+1}
+    return -laguerre(n-k, alpha+k, x)
 
 
 def laguerre_der_seq(ns, alpha, x):
@@ -181,5 +185,12 @@ def laguerre_der_seq(ns, alpha, x):
 
     """
     k = 1
-    ns = [n-k for n in ns]
-    return laguerre_seq(ns, alpha+k, x)
+    ns = list(ns)
+    # d/dx L_0 = 0; the orders are ascending, so the n >= 1 entries are a suffix
+    out = np.zeros((len(ns), *x.shape), dtype=x.dtype)
+    first = sum(1 for n in ns if n < k)
+    if first < len(ns):
+        # d/dx L_n^a = - L_{n-1}^{a+1}
+        out[first:] = -laguerre_seq([n-k for n in ns[first:]], alpha+k, x)
+
+    return out
